@@ -1,7 +1,7 @@
 //! C01: .slp -> game -> .slp is the identity on well-formed files.
 
 use crate::common::{self, Space};
-use crate::driver::{CaseOut, Ctx, Monitor, Tier};
+use crate::driver::{Lane, LaneKind, CaseOut, Ctx, Monitor, Tier};
 use crate::{gen, model};
 use serde_json::json;
 
@@ -75,6 +75,9 @@ impl Monitor for C01 {
 	}
 	fn assumptions(&self) -> Vec<String> {
 		vec!["well-formedness is defined by the harness's hand-transcribed spec tables (spec.rs), pinned against the payload tables of the repository's real fixtures".into(), "frame field contents are sampled, not enumerated".into()]
+	}
+	fn lanes(&self, _tier: Tier) -> Vec<Lane> {
+		vec![Lane { kind: LaneKind::Miri, name: "roundtrip", shards: (0..25).collect(), nshards: 25 }]
 	}
 	fn n_cases(&self, ctx: &Ctx) -> usize {
 		self.fixtures.len() + self.space(ctx.tier).len()
